@@ -82,8 +82,7 @@ func (g *gen) writeStatementAssign(b *buffer, op t.ID, lhs *a.Expr, rhs *a.Expr,
 	depth++
 
 	needWriteLoadExprDerivedVars := false
-	if (len(g.currFunk.derivedVars) > 0) &&
-		(rhs.Operator() == a.ExprOperatorCall) {
+	if rhs.Operator() == a.ExprOperatorCall {
 		method := rhs.LHS().AsExpr()
 		recvTyp := method.LHS().MType().Pointee()
 		if (recvTyp.Decorator() == 0) && (recvTyp.QID()[0] != t.IDBase) {
